@@ -630,14 +630,14 @@ def analyse_core(repo: Path):
 
 
 # functions whose model is hand-written (not translated by py2lean; the ones py2lean has since taken over — Task.get_variables / get_bounds /
-# correct_solution / transform_solution, Multitask.__check_modes__ / __get_mode__ / __run__ / execute / __parallelize__, _generate_agents / _init_population — are no longer pinned: the
+# correct_solution / transform_solution, Multitask.__check_modes__ / __get_mode__ / __run__ / execute / __parallelize__, ParameterGrid.__iter__ / __len__, _generate_agents / _init_population — are no longer pinned: the
 # refinement theorems R14 / R20 / R11 are about their text as it is now) and tied by the correspondence suites: the fingerprint of their
 # source text (docstrings and comments removed) is part of the generated facts, so that the model is known to have been validated against
 # exactly the text that is there now; a change of any of them breaks the pin obligation (Props/T14 T19 T20) and sends the check searching
 PINNED = {
     "models.py": ["LabelEncoder", "EarlyStopping", "BaseOptimizationConfig", "Agent", "ContinuousMultiVariable", "DiscreteMultiVariable", "PermutationVariable",
                   "MultiObjectiveVariable", "BinaryVariable", "Task.__init__", "Task.validate_objective_weights", "Task.empty_solution"],
-    "hypertuner.py": ["ParameterGrid", "HyperTuner"],
+    "hypertuner.py": ["ParameterGrid.__init__", "ParameterGrid.__getitem__", "HyperTuner"],
     "multitask.py": ["Multitask.__init__", "Multitask.export_results"],
     "enums.py": ["ModeSolver", "TaskType", "ExportType"],
     "helpers.py": ["calculate_fitness", "average_fitness", "get_pool_executor"],
